@@ -4,6 +4,7 @@ use nom::branch::alt;
 use nom::bytes::complete::{tag, take_till};
 use nom::character::complete::{char, digit0, digit1, multispace0};
 use nom::combinator::{map, opt, recognize, verify};
+use nom::error::ErrorKind;
 use nom::multi::{many0, separated_list0, separated_list1};
 use nom::sequence::{delimited, preceded, terminated, tuple};
 use nom::IResult;
@@ -161,7 +162,29 @@ fn predicate_expr(input: &str) -> IResult<&str, model::PredicateExpr> {
 ///
 /// [[14] Expr](https://triple-underscore.github.io/XML/xpath10-ja.html#NT-Expr)
 fn expr(input: &str) -> IResult<&str, model::Expr> {
-    or_expr(input)
+    let depth = EXPR_DEPTH.with(|d| {
+        d.set(d.get() + 1);
+        d.get()
+    });
+    let result = if depth > MAX_EXPR_DEPTH {
+        Err(nom::Err::Failure(nom::error::Error::new(
+            input,
+            ErrorKind::TooLarge,
+        )))
+    } else {
+        or_expr(input)
+    };
+    EXPR_DEPTH.with(|d| d.set(d.get() - 1));
+    result
+}
+
+/// Deepest nesting of expressions (parentheses, predicates and function arguments) that is
+/// parsed; deeper input is refused with an error instead of exhausting the stack of the recursive
+/// descent.
+pub const MAX_EXPR_DEPTH: usize = 32;
+
+thread_local! {
+    static EXPR_DEPTH: std::cell::Cell<usize> = const { std::cell::Cell::new(0) };
 }
 
 /// VariableReference | '(' Expr ')' | Literal | Number | FunctionCall
